@@ -315,6 +315,7 @@ class SendMessageModular(Contract):
         b.update(kwargs)
         rs, ws = b.get("read_stream"), b.get("write_stream")
         method, params = b.get("method"), b.get("params", V.NONE)
+        I.ghost["sent_params"] = params
         pfx = getattr(I, "callsite_prefix", "callsite")
         I.oblige(f"{pfx}.send_message.requires_method_is_str@{getattr(node, 'lineno', 0)}", V.is_str(method))
         I.oblige(f"{pfx}.send_message.requires_params_none_or_dict@{getattr(node, 'lineno', 0)}",
